@@ -318,6 +318,9 @@ func (f *frame) callHavocT(x ssa.CallInstruction, callee *ssa.Function, st State
 // callHavocRes: unknown effect within the inferred frame.
 func (f *frame) callHavocRes(x ssa.CallInstruction, callee *ssa.Function, st State, reach string, resT types.Type, args []Val) callOut {
 	c := f.c
+	if callee != nil && len(callee.Blocks) == 0 && args != nil {
+		return f.externalCall(x, callee, st, reach, resT, args)
+	}
 	ms := newModSet()
 	if callee != nil {
 		ms.union(c.eng.summaryOf(callee).mods)
@@ -531,28 +534,42 @@ func (f *frame) appendBuiltin(x ssa.CallInstruction, args []Val, st State, reach
 		// append(s, nil...) : copy
 		_ = k
 	}
+	// The result keeps the offset of s inside a fresh backing array that starts as a copy of
+	// the whole old backing array (cells outside the window are irrelevant).
+	end := c.bind("aend", "Int", addOff(s[1], s[2]))
 	for _, lf := range shapeOf(et) {
 		mem := "E|" + elemKey(et) + "|" + lf.Path
 		ms := memSort(lf.Sort, 2)
 		E := c.heapGet(st.heap, mem, ms)
-		srcArr := c.sel(E, s[0])
 		as := arrSort(lf.Sort)
+		srcArr := c.bind("asrc", as, ite(eq(s[0], "0"), constArr(as, zeroLeaf(&lf)), c.sel(E, s[0])))
 		var newArr string
-		if s[1] == "0" && single {
+		if single {
 			el := c.sel(c.sel(E, t[0]), "0")
-			newArr = sto(ite(eq(s[0], "0"), constArr(as, zeroLeaf(&lf)), srcArr), s[2], el)
-		} else if s[1] == "0" && t[2] == "0" {
+			newArr = sto(srcArr, end, el)
+		} else if t[2] == "0" {
 			newArr = srcArr
 		} else {
 			newArr = c.fresh("apparr", as)
 			q := c.qvar()
-			tArr := c.sel(E, t[0])
-			body := eq(sel(newArr, q), ite(lt(q, s[2]), sel(srcArr, add(s[1], q)), sel(tArr, add(t[1], sub(q, s[2])))))
-			c.assume(reach, fmt.Sprintf("(forall ((%s Int)) (! (=> (and (<= 0 %s) (< %s %s)) %s) :pattern ((select %s %s))))", q, q, q, nl, body, newArr, q))
-			c.stats.quantified++
+			tArr := c.bind("atarr", as, c.sel(E, t[0]))
+			tl, to := t[2], t[1]
+			def := func(i string) string {
+				return ite(and(le(end, i), lt(i, add(end, tl))), sel(tArr, add(to, sub(i, end))), sel(srcArr, i))
+			}
+			c.lazyArr[newArr] = def
+			if c.quant {
+				c.assume(reach, fmt.Sprintf("(forall ((%s Int)) (! %s :pattern ((select %s %s))))", q, eq(sel(newArr, q), def(q)), newArr, q))
+				c.stats.quantified++
+			}
 		}
 		st.heap = c.heapUpd(st.heap, mem, ms, sto(E, r, newArr))
 	}
+	f.setResult(x, Val{r, s[1], nl, c.bind("acap", "Int", ncap)})
+	return st
+}
+
+func unusedAppendTail(f *frame, x ssa.CallInstruction, r, nl, ncap string, st State) State {
 	f.setResult(x, Val{r, "0", nl, ncap})
 	if v, ok := x.(ssa.Value); ok {
 		_ = v
@@ -596,7 +613,10 @@ func (f *frame) copyBuiltin(x ssa.CallInstruction, args []Val, st State, reach s
 		}
 		dArrB := c.bind("cpd", arrSort(lf.Sort), dArr)
 		var newArr string
-		if N, ok := f.staticBackN(com.Args[0]); ok && N <= 64 {
+		if mk, ok := com.Args[0].(*ssa.MakeSlice); ok && !srcIsString && mk.Len == mk.Cap && d[1] == "0" && s[1] == "0" && d[2] == s[2] && f.stillFresh(mk, x) {
+			// idiom make([]T, len(src)); copy(dst, src): the whole (unshared) destination equals the source
+			newArr = c.sel(E, s[0])
+		} else if N, ok := f.staticBackN(com.Args[0]); ok && N <= 64 {
 			// pointwise over the static backing array
 			newArr = dArrB
 			do := c.bind("cpo", "Int", d[1])
@@ -608,10 +628,15 @@ func (f *frame) copyBuiltin(x ssa.CallInstruction, args []Val, st State, reach s
 		} else {
 			newArr = c.fresh("cparr", arrSort(lf.Sort))
 			q := c.qvar()
-			inr := and(le(d[1], q), lt(q, add(d[1], n)))
-			body := eq(sel(newArr, q), ite(inr, srcAt(sub(q, d[1])), sel(dArrB, q)))
-			c.assume(reach, fmt.Sprintf("(forall ((%s Int)) (! %s :pattern ((select %s %s))))", q, body, newArr, q))
-			c.stats.quantified++
+			do := d[1]
+			def := func(i string) string {
+				return ite(and(le(do, i), lt(i, add(do, n))), srcAt(sub0(i, do)), sel(dArrB, i))
+			}
+			c.lazyArr[newArr] = def
+			if c.quant {
+				c.assume(reach, fmt.Sprintf("(forall ((%s Int)) (! %s :pattern ((select %s %s))))", q, eq(sel(newArr, q), def(q)), newArr, q))
+				c.stats.quantified++
+			}
 		}
 		st.heap = c.heapUpd(st.heap, mem, ms, sto(E, d[0], newArr))
 	}
@@ -629,3 +654,98 @@ func addOff(off, i string) string {
 }
 
 var _ = strings.HasPrefix
+
+// externalCall: a body-less callee without model. Assumption (listed in evidence): it
+// writes only memory reachable from its pointer / slice / map arguments (shallow), so
+// only those cells are havocked, not the whole arrays.
+func (f *frame) externalCall(x ssa.CallInstruction, callee *ssa.Function, st State, reach string, resT types.Type, args []Val) callOut {
+	c := f.c
+	name := callee.Name()
+	ptypes := paramTypes(callee.Signature)
+	pure := isKnownPureExternal(callee)
+	if !pure {
+		for i, a := range args {
+			if i >= len(ptypes) {
+				break
+			}
+			switch u := ptypes[i].Underlying().(type) {
+			case *types.Pointer:
+				l := locOfRef(a[0], u.Elem())
+				fv := make(Val, len(l.accs))
+				for k, acc := range l.accs {
+					fv[k] = c.fresh("ext_"+sanitize(name), acc.leaf.Sort)
+				}
+				c.assumeRanges(fv, u.Elem(), reach, "")
+				st.heap = c.store(st.heap, l, fv)
+			case *types.Slice:
+				for _, lf := range shapeOf(u.Elem()) {
+					mem := "E|" + elemKey(u.Elem()) + "|" + lf.Path
+					ms := memSort(lf.Sort, 2)
+					E := c.heapGet(st.heap, mem, ms)
+					st.heap = c.heapUpd(st.heap, mem, ms, sto(E, a[0], c.fresh("ext_"+sanitize(name), arrSort(lf.Sort))))
+				}
+			case *types.Map:
+				for _, n := range mapMems(u) {
+					srt, ok := c.memSorts[n]
+					if !ok {
+						continue
+					}
+					args2 := sexprArgs(srt)
+					if len(args2) == 2 {
+						A := c.heapGet(st.heap, n, srt)
+						st.heap = c.heapUpd(st.heap, n, srt, sto(A, a[0], c.fresh("ext_"+sanitize(name), args2[1])))
+					}
+				}
+			case *types.Interface:
+				// an interface argument may carry a pointer the callee writes through: unknown target
+				if !isErrorType(ptypes[i]) {
+					c.note("external-call-with-interface-arg:" + name)
+				}
+			}
+		}
+	}
+	na := c.fresh("alloc", "Int")
+	c.assume(reach, ge(na, st.alloc.term()))
+	nst := State{heap: st.heap, alloc: allocPtr{base: na}}
+	var res Val
+	if pure && c.eng.detResult(callee) {
+		res = c.ufResult(callee, args, resT, reach, st, na)
+	} else {
+		res = c.freshVal("ret_"+sanitize(name), resT, reach, na)
+	}
+	c.stats.havocCalls++
+	return callOut{res, nst}
+}
+
+// stillFresh: the MakeSlice result has no other use between its creation and instruction x
+// (same block, adjacent apart from pure instructions), so its backing array is unshared.
+func (f *frame) stillFresh(mk *ssa.MakeSlice, x ssa.CallInstruction) bool {
+	instr, ok := x.(ssa.Instruction)
+	if !ok || mk.Block() != instr.Block() {
+		return false
+	}
+	refs := mk.Referrers()
+	if refs == nil {
+		return false
+	}
+	// every earlier referrer must be this call
+	seen := false
+	for _, in := range mk.Block().Instrs {
+		if in == ssa.Instruction(mk) {
+			seen = true
+			continue
+		}
+		if !seen {
+			continue
+		}
+		if in == instr {
+			return true
+		}
+		for _, r := range *refs {
+			if r == in {
+				return false
+			}
+		}
+	}
+	return false
+}
